@@ -62,6 +62,7 @@ Proof.
     | context [match py_str ?o ?x with _ => _ end] => destruct (py_str o x)
     end; cbn in H; inversion H; subst; eauto.
   - destruct (o_utf8_decode orc b); inversion H; eauto.
+  - inversion H; eauto.
 Qed.
 
 Lemma bool_do_convert_shape : forall v w, bool_do_convert orc v = Ok w -> exists b, w = PBool b.
@@ -123,6 +124,10 @@ Proof.
   intros v w H. unfold choicelist_do_convert in H.
   destruct (py_truthy orc v) as [[|]|]; [|inversion H; auto|discriminate].
   destruct v; try (apply bind_ok in H as [items [_ H]]; apply strs_of_shape in H; auto; fail).
+  2: { (* set *)
+    unfold strs_of_sorted in H. apply bind_ok in H as [l0 [_ H]]. inversion H; subst.
+    right; left. eexists; split; [reflexivity|]. unfold all_plain_str. rewrite Forall_forall.
+    intros x Hx. apply in_map_iff in Hx as [s0 [<- _]]. eauto. }
   (* str *)
   destruct (starts_with _ _); [|inversion H; auto].
   destruct (o_json_loads orc s) as [j|]; [|inversion H; auto].
